@@ -23,11 +23,18 @@
                                            no side condition
       C01G_G_no_phantoms                   a prefix stored by a compressed level of G_out has
                                            structural support in the graph (C03)
+      C01G_G_passes_C03_checker            G_out passes C03's verified checker [Support.no_phantomb]
+                                           against the specification spec/Support.v of the assignment
+      C01G_G_sane                          the sanity bit of the model is true (no live leaf is read
+                                           where it cannot be located)
+      C01G_support_necessary               where the graph has no structural support its
+                                           denotation is 0 (the support notion is not too small)
     Examples of the hypotheses: proofs/KernelExamples.v. *)
 From Coq Require Import ZArith List Bool String. Import ListNotations.
-From TV Require Import spec.Storage spec.Spec model.DesugarSem model.Exhaust model.DesugarSemGraph
+From TV Require Import spec.Storage spec.Support.
+From TV Require Import spec.Spec model.DesugarSem model.Exhaust model.DesugarSemGraph
   model.Kernel proofs.KernelEncode proofs.KernelSound proofs.KernelStruct proofs.KernelSupport
-  proofs.KernelBucket proofs.KernelTheorems.
+  proofs.KernelBucket proofs.KernelSane proofs.KernelTheorems proofs.KernelSupportSpec.
 Open Scope Z_scope.
 
 (** G computes the loop-nest denotation [gdenote] of the graph (DesugarSemGraph.v: an iteration
@@ -95,3 +102,37 @@ Theorem C01G_G_no_phantoms : forall (cfg : kcfg) (g : graph Z) (tgt : list strin
                  /\ gsupp cfg g (bind_from (fun _ => 0) (k_oidx cfg) (p ++ rest)) = true.
 Proof. exact G_no_phantoms. Qed.
 Print Assumptions C01G_G_no_phantoms.
+
+(** the sanity bit: on accepted graphs the model never falls back on its totalised default (a live
+    leaf that cannot be located, an undefined context, a sparse leaf without a coordinate list) *)
+Theorem C01G_G_sane : forall (cfg : kcfg) (g : graph Z) (tgt : list string),
+  k_leaves cfg = graph_leaves g ->
+  graph_okb cfg g tgt = true -> support_okb cfg g = true -> snd (G cfg g) = true.
+Proof. exact G_sane_bit. Qed.
+Print Assumptions C01G_G_sane.
+
+(** the structural support of C01G_G_no_phantoms is not vacuous in the other direction either:
+    wherever the loop nest has no support its value is 0, so every non-zero output value lies in
+    the support *)
+Theorem C01G_support_necessary : forall (cfg : kcfg) (g : graph Z) (rho : val),
+  leaves_okb cfg = true -> k_leaves cfg = graph_leaves g ->
+  gsupp cfg g rho = false ->
+  gdenote (O := ZOps) (envE cfg) (k_sizes cfg) (ordsE cfg) g rho = 0.
+Proof. exact G_support_necessary. Qed.
+Print Assumptions C01G_support_necessary.
+
+(** C03 for the model, against C03's own specification (spec/Support.v): when the graph is accepted
+    by C01's validator for the assignment [a], the output of G passes the verified checker
+    [Support.no_phantomb] (C03_checker_spec: every prefix stored by a compressed level has
+    [Support.level_support]) for the assignment translated to Support's syntax ([tr_assignment]:
+    literals become [SLit], everything else 1:1), the inputs read as the sets of coordinates they
+    store ([stored_set] = [Support.stored_of] of each stored input) and the same index sizes. *)
+Theorem C01G_G_passes_C03_checker : forall (cfg : kcfg) (senv : Support.env),
+  (forall k, Support.lookup senv k = k_sizes cfg k) ->
+  forall (g : graph Z) (a : Spec.assignment Z),
+  k_leaves cfg = graph_leaves g ->
+  graph_okb cfg g (tgt_idx a) = true -> support_okb cfg g = true ->
+  graph_ok_spec (ordsE cfg) Z.eqb a g = true ->
+  no_phantomb (tr_assignment a) (stored_set cfg) senv (G_out cfg g) = true.
+Proof. exact G_out_no_phantomb. Qed.
+Print Assumptions C01G_G_passes_C03_checker.
